@@ -297,6 +297,10 @@ impl Group for EnfGroup {
             // (feerate, to_holder, to_counterparty, HTLC amount / hash / cltv / direction, HTLC removed, point),
             // phase 2, phase 1 and through the handler; the identical retry is accepted
             f("setup|signcp 0 1000 0 1 2|signcp 1 1004 3713 1 2|signcp 1 1004 3717 1 2|signcp 1 1004 3714 1 2|signcp 1 1004 3701 1 2|signcp 1 1004 3809 1 2|signcp 1 1004 3761 1 2|signcp 1 1004 3737 1 2|signcp 1 1004 3905 1 2|signcp 1 1004 41 1 2|signcp 1 1005 3713 1 2|signcp 1 1004 3713 1 2|hsigncp 1 1004 3717 1 2|signcp 1 1004 3709 1 1|hsigncp 1 1004 3713 1 2|restart|signcp 1 1004 3717 1 2|signcp 1 1004 3713 1 1"),
+            // a restart directly after every kind of accepted state change
+            f(&format!("setup|restart|validate 0 0 1 1 1|restart|activate|restart|signcp 0 1000 0 1 1|restart|validate 1 17 1 1 2|restart|revoke 1|restart|signcp 1 1004 1 1 2|restart|revokecp 0 {} 1000|restart|signcp 2 1008 0 1 2|mutualclose 1 1 1|restart|validate 2 0 1 1 2|revoke 2|signholder 1|restart|revoke 2",
+                hex::encode(lightning_signer::lightning::ln::chan_utils::build_commitment_secret(&[3u8; 32], INITIAL)))),
+            f("setup|validate 0 0 1 1 2|activate|signcp 0 1000 0 1 2|mutualclose 1 2 1|restart|validate 1 1 1 1 2|signredundant 0 0 1|restart|revoke 1|signrecovery|restart|getsecret 0"),
             // F1 witness (fixed by 208b946): validate n+1, sign n, revoke n
             f("setup|validate 0 0 1 1 2|activate|validate 1 1 1 1 2|signholder 0|revoke 1|getsecret 0|restart|revoke 1|hrevoke 6 0"),
             // invalid signatures never open the way to a secret
@@ -385,8 +389,16 @@ impl Group for EnfGroup {
                 let op = self.gen_op(rng, &w);
                 handlerize(rng, op)
             };
-            w.apply(&op);
+            let before = w.digest();
+            let line = w.apply(&op);
+            let changed = line.starts_with("ok") && w.digest() != before;
             ops.push(op);
+            // crash point: a restart directly after a request that changed the state (a dropped or misplaced
+            // persist shows exactly here)
+            if changed && !w.dead && rng.chance(1, 6) {
+                w.apply("restart");
+                ops.push("restart".into());
+            }
         }
         ops
     }
